@@ -62,6 +62,13 @@ abbrev kpReadKeyStore : Nat := 6
 abbrev cFlashEraseAllUnsecure : Nat := 0x0D
 abbrev cConfigureMemory : Nat := 0x11
 abbrev cReliableUpdate : Nat := 0x12
+abbrev cFuseProgram : Nat := 0x14
+abbrev cTrustProvisioning : Nat := 0x16
+abbrev cFuseRead : Nat := 0x17
+abbrev cUpdateLifeCycle : Nat := 0x18
+abbrev cEleMessage : Nat := 0x19
+abbrev tpOemSetMasterShare : Nat := 1
+abbrev tpHsmEncBlock : Nat := 5
 abbrev rGeneric : Nat := 0xA0
 abbrev rReadMemory : Nat := 0xA3
 abbrev rGetProperty : Nat := 0xA7
@@ -452,6 +459,27 @@ def Dev.exec (d0 : Dev) (p : CmdPkt) : Outcome :=
         else if op = Spec.kpSetUserKey ∨ op = Spec.kpWriteKeyStore then
           .fromHost { d with kpTarget := (op, t), kpBuf := [] } (genericResp 0 p.tag) 0 n finalSt
         else .single d (genericResp Spec.stFail p.tag)
+      | _ => .single d (genericResp Spec.stFail p.tag)
+    else if p.tag = Spec.cUpdateLifeCycle ∨ p.tag = Spec.cEleMessage then
+      .single { d with log := d.log ++ [(p.tag, p.params)] } (genericResp 0 p.tag)
+    else if p.tag = Spec.cTrustProvisioning then
+      match p.params with
+      | op :: _ =>
+        if op = Spec.tpOemSetMasterShare ∨ op = Spec.tpHsmEncBlock then
+          .single { d with log := d.log ++ [(p.tag, p.params)] } (genericResp 0 p.tag)
+        else .single d (genericResp Spec.stFail p.tag)
+      | [] => .single d (genericResp Spec.stFail p.tag)
+    else if p.tag = Spec.cFuseRead then
+      -- the fuse / IFR area is the device's `resource` region; the memory id is not interpreted
+      match p.params with
+      | [a, n, _] =>
+        if a + n ≤ d.resource.length then .toHost d (readMemResp 0 n) ((d.resource.drop a).take n) finalSt
+        else .single d (genericResp Spec.stMemoryRangeInvalid p.tag)
+      | _ => .single d (genericResp Spec.stFail p.tag)
+    else if p.tag = Spec.cFuseProgram then
+      -- the bytes to program are collected in the receive buffer `sb`; address, length and memory id are recorded
+      match p.params with
+      | [_, n, _] => .fromHost { d with sb := [], log := d.log ++ [(p.tag, p.params)] } (genericResp 0 p.tag) 0 n finalSt
       | _ => .single d (genericResp Spec.stFail p.tag)
     else .single d (genericResp Spec.stUnknownCommand p.tag)
 
@@ -1124,7 +1152,21 @@ inductive Op where
   | kpWriteKeyStore (data : Bytes)
   | kpReadKeyStore
   | reset (reopen : Bool)
+  /-- every API method `return self._process_cmd(CmdPacket(tag, NONE, *params)).status == SUCCESS` not listed above:
+      `update_life_cycle`, `ele_message`, `tp_oem_set_master_share`, `tp_hsm_enc_blk` (see the `Op.…` abbreviations below) -/
+  | logCmd (tag : Nat) (params : List Nat)
+  | fuseProgram (addr : Nat) (data : Bytes) (memId : Nat)
+  | fuseRead (addr len memId : Nat)
   deriving DecidableEq, Repr
+
+/-- `update_life_cycle(life_cycle)` -/
+abbrev Op.updateLifeCycle (lc : Nat) : Op := .logCmd Spec.cUpdateLifeCycle [lc]
+/-- `ele_message(cmdMsgAddr, cmdMsgCnt, respMsgAddr, respMsgCnt)` (first word reserved = 0) -/
+abbrev Op.eleMessage (ca cc ra rc : Nat) : Op := .logCmd Spec.cEleMessage [0, ca, cc, ra, rc]
+/-- `tp_oem_set_master_share(share_addr, share_size, enc_master_share_addr, enc_master_share_size)` -/
+abbrev Op.tpOemSetMasterShare (a b c d : Nat) : Op := .logCmd Spec.cTrustProvisioning [Spec.tpOemSetMasterShare, a, b, c, d]
+/-- `tp_hsm_enc_blk(blob_addr, blob_size, kek_id, hdr_addr, hdr_size, block_num, block_addr, block_size)` -/
+abbrev Op.tpHsmEncBlk (a b k c d n e f : Nat) : Op := .logCmd Spec.cTrustProvisioning [Spec.tpHsmEncBlock, a, b, k, c, d, n, e, f]
 
 def runOp : Op → H Val
   | .open_ => do
@@ -1168,6 +1210,9 @@ def runOp : Op → H Val
   | .kpWriteKeyStore d => dataOutCmd Spec.cKeyProvisioning [Spec.kpWriteKeyStore, 0, d.length] d
   | .kpReadKeyStore => dataInCmd Spec.cKeyProvisioning [Spec.kpReadKeyStore] .keyProv
   | .reset r => reset r
+  | .logCmd t ps => simpleCmd t ps
+  | .fuseProgram a d m => dataOutCmd Spec.cFuseProgram [a, d.length, clampMemId m] d
+  | .fuseRead a n m => dataInCmd Spec.cFuseRead [a, n, clampMemId m] .readMemory
 
 /-- *Observable success* (DESIGN §6 C10): nothing raised, the value is not `None`/`False`, status is SUCCESS -/
 def succeeded (r : Except HErr Val) (h : Host) : Prop :=
@@ -1260,6 +1305,7 @@ def Op.dataLen : Op → Nat
   | .loadImage d => d.length
   | .kpSetUserKey _ d => d.length
   | .kpWriteKeyStore d => d.length
+  | .fuseProgram _ d _ => d.length
   | _ => 0
 
 /-- What the protocol defines as the effect of one operation on the device, its result and the status code
@@ -1356,6 +1402,21 @@ def specOp (ce usb : Bool) (d : Dev) : Op → Option (Dev × Except HErr Val × 
   -- boot image without a command (the ROM collects data packets)
   | .loadImage data =>
     if d.imageMode then some ({ d with image := d.image ++ data }, .ok (.bool true), Spec.stSuccess) else none
+  -- update_life_cycle / ele_message / tp_oem_set_master_share / tp_hsm_enc_blk: the device records the command as sent
+  | .logCmd t ps =>
+    if t = Spec.cUpdateLifeCycle ∨ t = Spec.cEleMessage ∨
+        (t = Spec.cTrustProvisioning ∧ (ps.head? = some Spec.tpOemSetMasterShare ∨ ps.head? = some Spec.tpHsmEncBlock)) then
+      some (d.logged t ps, .ok (.bool true), Spec.stSuccess)
+    else none
+  -- fuse_program: the bytes arrive once and in order in the device's receive buffer; address / length / clamped id recorded
+  | .fuseProgram a data m =>
+    some ({ d with ncmd := d.ncmd + 1, pktCount := (split d.maxPacket data).length, sb := data,
+                   log := d.log ++ [(Spec.cFuseProgram, [a, data.length, clampMemId m])] }, .ok (.bool true), Spec.stSuccess)
+  -- fuse_read: exactly the bytes of the fuse / IFR area
+  | .fuseRead a n _ =>
+    let d1 := { d with ncmd := d.ncmd + 1, pktCount := 0 }
+    if a + n ≤ d.resource.length then some (d1, .ok (.bytes ((d.resource.drop a).take n)), Spec.stSuccess)
+    else some (d1, specFail ce Spec.stMemoryRangeInvalid .none, Spec.stMemoryRangeInvalid)
   | _ => none
 
 /-- arguments fit the 32-bit words of a command packet -/
@@ -1382,6 +1443,9 @@ def Op.argsOK : Op → Prop
   | .flashReadOnce i _ => i < 4294967296
   | .flashProgramOnce i _ => i < 4294967296
   | .efuseProgramOnce i v _ => i < 4294967296 ∧ v < 4294967296
+  | .logCmd t ps => t < 256 ∧ ps.length < 255 ∧ ∀ v ∈ ps, v < 4294967296
+  | .fuseProgram a data m => a < 4294967296 ∧ data.length < 4294967296 ∧ m < 4294967296
+  | .fuseRead a n m => a < 4294967296 ∧ n < 4294967296 ∧ m < 4294967296
   | _ => True
 
 /-! ### the device aborts a host→device data phase -/
